@@ -207,11 +207,14 @@ def run(ctx):
     cl = U.calls_in(cfg, 'cleanup_runtime_context')
     ok = False
     for n, c in cl:
-        g = U.polarity_guard(cfg, n, lambda t: norm(t) == 'cmds')
-        ok = g is not None and g[1] is True
+        ok = U.guarded(cfg, n, 'cmds', True) and \
+            U.only_guards(cfg, n, [('cmds', True)]) and \
+            all(cfg.dominates(n, k) or not cfg.paths_between(k, n)
+                for k, _c in cont)
     r3.check(ok, ctx.construct(rr, extra='runtime context cleaned'),
-             'the task runtime context (policy counters) is not cleaned '
-             'when the task is re-run', ctx.loc(rr))
+             'the task runtime context (policy counters, with-items '
+             'capacity) is not cleaned whenever the task is re-run - e.g. '
+             'only with reset', ctx.loc(rr))
     rc = prog.func(WF + '._recursive_rerun')
     cfg = ctx.cfg(rc)
     st = U.calls_in(cfg, 'set_state')
